@@ -117,6 +117,28 @@ func check(c Case, o *vf.Obs) error {
 		if len(c.Clauses)-len(mus.Clauses) >= 2 {
 			o.Nontrivial()
 		}
+		if round == 0 {
+			// the returned value is itself an unsatisfiable CNF problem: every method must accept it, and, the set
+			// being minimal, return all of its clauses
+			o.Class("result-fed-back")
+			kept := oracle.CloneCNF(mus.Clauses)
+			for _, m2 := range []string{"MUS", "MUSDeletion", "MUSInsertion", "MUSMaxSat"} {
+				var again *explain.Problem
+				var err2 error
+				if perr := vf.Safely(func() error { again, err2 = call(mus, m2); return nil }); perr != nil {
+					return fmt.Errorf("%s of the problem returned by %s (%v): %v", m2, c.Method, kept, perr)
+				}
+				if err2 != nil {
+					return fmt.Errorf("%s of the problem returned by %s (%v, unsatisfiable) failed: %v", m2, c.Method, kept, err2)
+				}
+				if !reflect.DeepEqual(mus.Clauses, kept) {
+					return fmt.Errorf("%s changed the problem it was given (the result of %s): %v -> %v", m2, c.Method, kept, mus.Clauses)
+				}
+				if len(again.Clauses) != len(kept) || !oracle.SubMultiset(again.Clauses, kept) {
+					return fmt.Errorf("%s of the minimal set %v returned %v (want the same clauses)", m2, kept, again.Clauses)
+				}
+			}
+		}
 	}
 	return nil
 }
